@@ -186,21 +186,49 @@ def classify(prog, R, rule, fns, reviewed, skip=lambda s: False, auto=None):
     # kind and description in the same crate takes over such an entry once (the code moved, it did not appear), unless
     # the entry's reason is tied to the old function's structure (callers / guard / dominating call / grammar fact)
     present = {f"{rule}:{x['key']}" for x in sites}
-    orphans = [k for k, e in reviewed.items() if k.startswith(rule + ":") and k not in present and not any(e.get(c) for c in ("callers", "guard", "calls_dominated", "after_first", "completes"))]
+    orphans = [k for k, e in reviewed.items() if k.startswith(rule + ":") and k not in present and not any(e.get(c) for c in ("guard", "calls_dominated", "after_first", "completes"))]
+
+    def _eff_callers(fn_, want_):
+        def _exp(cs, depth=0):
+            out_ = set()
+            for c in cs:
+                cb_ = prog.body(c)
+                if c in want_ or depth >= 3 or cb_ is None or not str(cb_.vis).startswith("in ") or not callers.get(c):
+                    out_.add(c)
+                else:
+                    out_ |= _exp(callers.get(c, ()), depth + 1)
+            return out_
+        return sorted(_exp(callers.get(fn_, ())))
 
     def _mid(k):
         parts = k.split("|")
         return parts[1] if len(parts) >= 3 else ""
 
-    def _take_orphan(full):
+    def _take_orphan(full, fn_=None):
         crate = full.split(":", 1)[1].split("::")[0]
         mid = _mid(full)
         for i, o in enumerate(orphans):
             if o.split(":", 1)[1].split("::")[0] != crate:
                 continue
+            wc = reviewed[o].get("callers")
+            if wc is not None and (fn_ is None or _eff_callers(fn_, wc) != sorted(wc)):
+                continue        # the reason rests on the call contexts: they must still be the same
             om = _mid(o)
             if om == mid or ("<-" in mid and om.split("<-")[0] == mid.split("<-")[0]) or (mid.split(":")[0] in ("debug_assert", "assert", "unreachable", "panic") and om.split(":")[0] == mid.split(":")[0] and om[:34] == mid[:34]):
                 return orphans.pop(i)
+        return None
+    try:
+        from framework import load_known
+        known_orphans = [k["key"] for k in load_known() if k.get("property") == R.pid and k.get("status") == "known" and k["key"].startswith(rule + ":") and k["key"] not in present]
+    except Exception:
+        known_orphans = []
+
+    def _take_known(full):
+        crate = full.split(":", 1)[1].split("::")[0]
+        mid = _mid(full)
+        for i, o in enumerate(known_orphans):
+            if o.split(":", 1)[1].split("::")[0] == crate and (_mid(o) == mid or ("<-" in mid and _mid(o).split("<-")[0] == mid.split("<-")[0])):
+                return known_orphans.pop(i)
         return None
     for s_ in sites:
         if skip(s_):
@@ -218,10 +246,16 @@ def classify(prog, R, rule, fns, reviewed, skip=lambda s: False, auto=None):
         e = reviewed.get(full)
         moved = None
         if e is None:
-            moved = _take_orphan(full)
+            moved = _take_orphan(full, s_["fn"])
             if moved is not None:
                 e = dict(reviewed[moved])
                 e["reason"] = f"(site moved here from {moved.split(':', 1)[1].split('|')[0]}, which no longer has it) " + e["reason"]
+        if e is None:
+            ko = _take_known(full)
+            if ko is not None:
+                # the site of a recorded finding moved (its function was merged / renamed): still the same finding
+                R.ob(rule, ko.split(":", 1)[1], False, s_["at"], f"recorded finding; the site now lives in {key.split('|')[0]}")
+                continue
         if e is None:
             R.ob(rule, key, False, s_["at"], f"new panic-capable site in the cone ({s_['kind']}: {s_['descr']}, callee {s_['callee']}): not discharged by a rule and not in the reviewed table")
             continue
